@@ -20,6 +20,9 @@ func init() {
 }
 
 func genC09(r *simrt.Rand, tier string) *simrt.Plan {
+	if r.Bool(0.2) {
+		return genC09Keys(r)
+	}
 	kind := simrt.Pick(r, l2Set, l2Set, l2Mutex, l2Bool, l2Int, l2Int)
 	g := newL2Gen(r, kind)
 	g.enabled = map[string]bool{"__uniquecols": true}
@@ -138,6 +141,10 @@ func (h *l2) readState(f *fragment, cols map[uint64]bool) (string, error) {
 }
 
 func execC09(c *simrt.Ctx) {
+	if c.Plan.Knob("mode", 0) == 1 {
+		execC09Keys(c)
+		return
+	}
 	var h *l2
 	var bounds []c09Boundary
 	var states []string // states[k] = model before client op k; states[len(ops)] = final
@@ -338,4 +345,164 @@ func opI(ops []simrt.Op, i int) []int64 {
 		return ops[i].I
 	}
 	return nil
+}
+
+
+// ---- key-translation store ------------------------------------------------------
+
+var c09Keys = []string{"a", "b", "c", "ünï", "", strings.Repeat("L", 5000), strings.Repeat("m", 4085), strings.Repeat("n", 4096), "k7", "k8", "k9"}
+
+func genC09Keys(r *simrt.Rand) *simrt.Plan {
+	p := &simrt.Plan{Knobs: map[string]int64{"mode": 1}, Sched: simrt.Config{Seed: int64(r.Uint64() >> 1)}}
+	var ops []simrt.Op
+	n := 1 + r.Intn(8)
+	for i := 0; i < n; i++ {
+		k := 1 + r.Intn(4)
+		I := []int64{int64(r.Intn(2))} // 0 = column keys, 1 = row keys
+		for j := 0; j < k; j++ {
+			I = append(I, int64(r.Intn(len(c09Keys))))
+		}
+		ops = append(ops, simrt.Op{K: "tr", I: I})
+		if r.Bool(0.15) {
+			ops = append(ops, simrt.Op{K: "reopen"})
+		}
+	}
+	p.Clients = [][]simrt.Op{ops}
+	return p
+}
+
+func execC09Keys(c *simrt.Ctx) {
+	dir := c.Dir + "/keys"
+	path := dir + "/.keys"
+	imgRoot := c.Dir + "/img"
+	ops := c.Plan.Clients[0]
+	type mapping map[string]uint64 // "ns|key" -> id
+	acked := mapping{}
+	var bounds []c09Boundary
+	var ackedAt []mapping
+	curOp, inOp := 0, false
+	nfs := 0
+	clone := func(m mapping) mapping {
+		o := mapping{}
+		for k, v := range m {
+			o[k] = v
+		}
+		return o
+	}
+	hook := func(op, p string) error {
+		if !strings.HasPrefix(p, dir) {
+			return nil
+		}
+		nfs++
+		if nfs > 400 {
+			return nil
+		}
+		if _, err := os.Stat(dir); err == nil {
+			if err := copyTree(dir, fmt.Sprintf("%s/%d", imgRoot, nfs)); err != nil {
+				panic(err)
+			}
+		}
+		bounds = append(bounds, c09Boundary{n: nfs, op: curOp, inflight: inOp, what: op})
+		ackedAt = append(ackedAt, clone(acked))
+		return nil
+	}
+	var tf *TranslateFile
+	open := func(p string) (*TranslateFile, error) {
+		t := NewTranslateFile(OptTranslateFileMapSize(1 << 22))
+		t.Path = p
+		return t, t.Open()
+	}
+	tr := func(t *TranslateFile, ns int64, keys []string) ([]uint64, error) {
+		if ns == 0 {
+			return t.TranslateColumnsToUint64("i", keys)
+		}
+		return t.TranslateRowsToUint64("i", "f", keys)
+	}
+	c.Do("c0", func() {
+		c.S.FSHook = hook
+		var err error
+		if tf, err = open(path); err != nil {
+			c.Fail("open-error", "%v", err)
+			return
+		}
+		for i, op := range ops {
+			curOp, inOp = i, true
+			switch op.K {
+			case "tr":
+				var keys []string
+				for _, k := range op.I[1:] {
+					keys = append(keys, c09Keys[k])
+				}
+				ids, err := tr(tf, op.I[0], keys)
+				if err != nil {
+					c.Fail("translate-error", "%v", err)
+					return
+				}
+				for j, k := range keys {
+					acked[fmt.Sprintf("%d|%s", op.I[0], k)] = ids[j]
+				}
+			case "reopen":
+				tf.Close()
+				if tf, err = open(path); err != nil {
+					c.Fail("reopen-error", "%v", err)
+					return
+				}
+			}
+			inOp = false
+			curOp = i + 1
+			c.OpDone()
+		}
+		tf.Close()
+		c.S.FSHook = nil
+	})
+	if c.Failed() {
+		return
+	}
+	c.Do("recover", func() {
+		for bi, b := range bounds {
+			ipath := fmt.Sprintf("%s/%d/.keys", imgRoot, b.n)
+			if _, err := os.Stat(ipath); err != nil {
+				continue
+			}
+			t, err := open(ipath)
+			if err != nil {
+				c.Fail("restart-blocked", "key store image at fs-op #%d (%s, op %d %s%v inflight=%v) does not open: %v", b.n, b.what, b.op, opK(ops, b.op), opI(ops, b.op), b.inflight, err)
+				return
+			}
+			for nk, id := range ackedAt[bi] {
+				parts := strings.SplitN(nk, "|", 2)
+				var nsi int64
+				if parts[0] == "1" {
+					nsi = 1
+				}
+				var got string
+				if nsi == 0 {
+					got, err = t.TranslateColumnToString("i", id)
+				} else {
+					got, err = t.TranslateRowToString("i", "f", id)
+				}
+				if err != nil || got != parts[1] {
+					t.Close()
+					c.Fail("lost-acked-key", "key store image at fs-op #%d (%s, op %d): id %d reads %q (%v), acknowledged key was %q (%d bytes)", b.n, b.what, b.op, id, shortKey(got), err, shortKey(parts[1]), len(parts[1]))
+					return
+				}
+				ids, err := tr(t, nsi, []string{parts[1]})
+				if err != nil || ids[0] != id {
+					t.Close()
+					c.Fail("lost-acked-key", "key store image at fs-op #%d (%s, op %d): key %q translates to %v (%v), acknowledged id was %d", b.n, b.what, b.op, shortKey(parts[1]), ids, err, id)
+					return
+				}
+			}
+			t.Close()
+			c.Probe("key-images-checked")
+		}
+	})
+	c.ProbeN("fs-boundaries", len(bounds))
+}
+
+func shortKey(k string) string {
+	if len(k) > 20 {
+		return fmt.Sprintf("%s...(%d)", k[:10], len(k))
+	}
+	return k
 }
